@@ -187,7 +187,13 @@ def toInt64 (x : Nat) : Int :=
   let m := x % 18446744073709551616
   if m < 9223372036854775808 then (m : Int) else (m : Int) - 18446744073709551616
 
-def numIDs : List Nat := [1, 4, 5, 6, 7, 8, 9, 11, 14, 32]
+/-- the integer parameters uTLS has a dedicated type for; the driver prints the connection's field for each -/
+def numIDs : List Nat := [1, 3, 4, 5, 6, 7, 8, 9, 11, 14, 32]
+
+/-- ids the regenerated switch of `PopulateFromUQUIC` reads with a type assertion but the driver does not observe:
+they are appended to the model text so that a new case shows up as a broken correspondence, not as silence -/
+def unobservedIDs : List Nat :=
+  (Uquic.Gen.UQuic.populateCases.filter fun c => c.2.1 == "assert" && !numIDs.contains c.1).map (·.1)
 
 def fmtNum (id v : Nat) : String :=
   if id == 1 || id == 11 then toString (toInt64 (v * 1000000)) else toString v
@@ -364,7 +370,8 @@ def stepPopulate (toksS scidS impl : String) : StepOut :=
     let iwire := (field impl "wire=").bind parseHex
     let showOv := match iov with | some b => if eqMod b own.override mask then b else own.override | none => own.override
     let showWire := match iwire with | some b => if eqMod b wire mask then b else wire | none => wire
-    let nums := ",".intercalate (numIDs.map fun id => fmtNum id ((getNum own.nums id).getD 0))
+    let nums := ",".intercalate (numIDs.map fun id => fmtNum id ((getNum own.nums id).getD 0)) ++
+      (if unobservedIDs.isEmpty then "" else s!",unobserved:{fmtNats unobservedIDs}")
     let model := s!"in={fmtCanons inp} n={nums} dm={if own.disableMigration then 1 else 0} scid={fmtHex own.scid} ov={fmtHex showOv} wire={fmtHex showWire} left={fmtCanons leftTP}"
     -- monitors: the connection's own record against the wire bytes of the same extension value
     let inums := ((field impl "n=").map fun s => (s.splitOn ",").map (·.toInt?.getD 0)).getD []
